@@ -190,6 +190,9 @@ def bounded(tier, seed):
         f.INDEPENDENT_VARIABLE = 'Start_UTC'
         for a in range(nattr):
             setattr(f, ['PI_CONTACT_INFO', 'PLATFORM', 'LOCATION', 'DATA_INFO'][a], 'value %d: with colon' % a)
+        if nattr >= 2:
+            # the attribute the reader creates for a free-text line in the special-comment section of a file it has read
+            f.SPECIAL_COMMENTS = 'free text found in the special comment section'
         t = f.createVariable('Start_UTC', 'd', ('POINTS',), values=np.arange(nrec) * 60. + 3600)
         t.units = 'seconds'
         names = []
